@@ -72,6 +72,10 @@ def handle (line : String) : String :=
       match npatOfSexp a, npatOfSexp b with
       | some a, some b => (match NPat.peqF fuel a b with | some r => toString r | none => "fuel")
       | _, _ => "bad-request"
+    | "pretty", [p] =>
+      match ppOfSexp p with
+      | some p => (match p.pretty with | some s => "s:" ++ s | none => "(raise ValueError)")
+      | none => "bad-request"
     | "match", [p, i, s] =>
       match npatOfSexp p, npatOfSexp i, nmapOfSexp s with
       | some p, some i, some s =>
